@@ -383,13 +383,13 @@ Proof.
   pose proof HS as HS0. rewrite Ek in HS. destruct (RoundTrip.Spell_cons_inv P _ _ _ _ HS) as [x1 [tl [-> [Hk1 [_ HStl]]]]]. cbn [app] in HU.
   assert (Hpass: unary_pass (tk x1) = true) by (rewrite Hk1; exact Hhd).
   (* the two speculative "( type-name )" attempts give up *)
-  assert (Htp: forall s0, Up s0 (x1 :: tl ++ n :: l) -> exists s1, (forall f, try_paren_type_name P (S f) s0 = Ok (None, s1)) /\ Up s1 (x1 :: tl ++ n :: l) /\ idx P s1 = idx P s0 /\ N.to_nat (ticks P s1) <= N.to_nat (ticks P s0) + 1).
+  assert (Htp: forall s0, Up s0 (x1 :: tl ++ n :: l) -> exists s1, (forall f, try_paren_type_name P (S f) s0 = Ok (None, s1)) /\ Up s1 (x1 :: tl ++ n :: l) /\ idx P s1 = idx P s0 /\ N.to_nat (ticks P s1) <= N.to_nat (ticks P s0) + 1 /\ SC P s0 s1).
   { intros s0 HU0. destruct (kind_eqb k K_LPAREN) eqn:El.
     2: { destruct (tptn_no_paren_c P s0 x1 _ HU0) as [sa [Ha [HUa HSa]]]; [rewrite Hk1; exact El|]. exists sa. split; [exact Ha|split; [exact HUa|cost_tac]]. }
     - destruct (Hlp eq_refl) as [k2 [v2 [rest2 [-> Hd2]]]].
       destruct (RoundTrip.Spell_cons_inv P _ _ _ _ HStl) as [x2 [tl2 [-> [Hk2 [_ _]]]]]. cbn [app] in HU0 |- *.
-      destruct (tptn_not_type_c P s0 x1 x2 _ HU0) as [sa [Ha [HUa [Hia Hta]]]]; [rewrite Hk1; exact El|rewrite Hk2; exact Hd2|].
-      exists sa. split; [exact Ha|split; [exact HUa|split; [exact Hia|rewrite Hta; lia]]]. }
+      destruct (tptn_not_type_c P s0 x1 x2 _ HU0) as [sa [Ha [HUa [Hia [Hta Hsca]]]]]; [rewrite Hk1; exact El|rewrite Hk2; exact Hd2|].
+      exists sa. split; [exact Ha|split; [exact HUa|split; [exact Hia|split; [rewrite Hta; lia|exact Hsca]]]]. }
   destruct (Htp s HU) as [s1 [H1 [HU1 HC1]]].
   destruct (peek_kind_up P s1 x1 _ HU1) as [s2 [H2 [HU2 HC2]]].
   destruct (Htp s2 HU2) as [s3 [H3 [HU3 HC3]]].
@@ -597,13 +597,13 @@ Proof.
   pose proof HS as HS0. rewrite Ek in HS. destruct (RoundTrip.Spell_cons_inv P _ _ _ _ HS) as [x1 [tl [-> [Hk1 [_ HStl]]]]]. cbn [app] in HU.
   assert (Hpass: unary_pass (tk x1) = true) by (rewrite Hk1; exact Hhd).
   destruct (peek_kind_up P s x1 _ HU) as [s2 [H2 [HU2 HC2]]].
-  assert (Htp: exists s3, (forall f, try_paren_type_name P (S f) s2 = Ok (None, s3)) /\ Up s3 (x1 :: tl ++ n :: l) /\ idx P s3 = idx P s2 /\ N.to_nat (ticks P s3) <= N.to_nat (ticks P s2) + 1).
+  assert (Htp: exists s3, (forall f, try_paren_type_name P (S f) s2 = Ok (None, s3)) /\ Up s3 (x1 :: tl ++ n :: l) /\ idx P s3 = idx P s2 /\ N.to_nat (ticks P s3) <= N.to_nat (ticks P s2) + 1 /\ SC P s2 s3).
   { destruct (kind_eqb k K_LPAREN) eqn:El.
     2: { destruct (tptn_no_paren_c P s2 x1 _ HU2) as [sa [Ha [HUa HSa]]]; [rewrite Hk1; exact El|]. exists sa. split; [exact Ha|split; [exact HUa|cost_tac]]. }
     destruct (Hlp eq_refl) as [k2 [v2 [rest2 [-> Hd2]]]].
     destruct (RoundTrip.Spell_cons_inv P _ _ _ _ HStl) as [x2 [tl2 [-> [Hk2 [_ _]]]]]. cbn [app] in HU2 |- *.
-    destruct (tptn_not_type_c P s2 x1 x2 _ HU2) as [sa [Ha [HUa [Hia Hta]]]]; [rewrite Hk1; exact El|rewrite Hk2; exact Hd2|].
-    exists sa. split; [exact Ha|split; [exact HUa|split; [exact Hia|rewrite Hta; lia]]]. }
+    destruct (tptn_not_type_c P s2 x1 x2 _ HU2) as [sa [Ha [HUa [Hia [Hta Hsca]]]]]; [rewrite Hk1; exact El|rewrite Hk2; exact Hd2|].
+    exists sa. split; [exact Ha|split; [exact HUa|split; [exact Hia|split; [rewrite Hta; lia|exact Hsca]]]]. }
   destruct Htp as [s3 [H3 [HU3 HC3]]].
   destruct (HR s3 (x1 :: tl) (n :: l) HS0 HU3) as [d [N [s4 [HU4 [HN [HL4 Hred]]]]]].
   destruct (suffixes_stop_c P s4 n l HU4 Hq) as [s5 [H5 [HU5 HC5]]].
